@@ -30,6 +30,32 @@ def roots_of(sm):
     return [r for r in roots if r]
 
 
+STD_ROOTS = ("core", "alloc", "std")
+
+
+def foreign_calls(sm, reachable=None):
+    """Third-party functions called from the bodies the census covers: {definition path}."""
+    W = sm.w
+    if reachable is None:
+        reachable = census.reachable_bodies(W, roots_of(sm))
+        reachable = set(r for r in reachable if not any(x in r for x in TEST_SUPPORT))
+    own = set(b["id"].split("::")[0] for b in W.by_id.values())
+    out = {}
+    for bid in sorted(reachable):
+        bv = W.bv(bid)
+        for bi, t in bv.calls():
+            if is_logging_span(t["sp"]):
+                continue
+            cid = t.get("resolved_id") or t.get("callee_id") or ""
+            if not cid or cid in W.by_id:
+                continue
+            root = cid.split("::")[0]
+            if root in STD_ROOTS or root in own:
+                continue
+            out.setdefault(cid, (bv, bi, t))
+    return out
+
+
 def op_type(bv, o):
     if "k" in o:
         return bv.crate.types[o["k"]["t"]]["s"]
@@ -202,6 +228,17 @@ def run(F, R):
         from . import c18 as _c18
         from .. import report as _report
         _c18.run(F, _report.SubsetAlias(R, {"C18-R4": "C14-R1"}, prefix="premise:C18-R4:", keys={"flag", "report-guarded-by-flag", "flag-set-only-if-finish-time"}))
+    # third-party functions called from the covered code, against the set reviewed on the pinned tree (informational: a
+    # new one has not been looked at for panics; census.PANIC_API lists the ones known to have a documented panic)
+    try:
+        tab_ = set(json.load(open(os.path.join(facts.VERIF, "tables", "foreign_calls.json")))["callees"])
+        fc_ = foreign_calls(sm, reachable)
+        new_ = sorted(set(fc_) - tab_)
+        R.count("third_party_callees", len(fc_))
+        R.holds("C14-R1", "third-party-callees", "%d third-party functions called, all reviewed" % len(fc_) if not new_ else
+                "NOTE: %d third-party functions not in tables/foreign_calls.json (not reviewed for panics): %s" % (len(new_), new_[:6]), nontrivial=False)
+    except (OSError, KeyError, ValueError):
+        pass
     R.count("proved", nproved)
     R.count("allowlisted", nallow)
     stale = [k for k in allow_idx if k not in used_allow]
